@@ -147,6 +147,156 @@ Proof.
     intros r2. cbn [decode_entries]. rewrite Etp. rewrite <- app_assoc, Hrep1. rewrite size_norm, Hrep2. reflexivity.
 Qed.
 
+(* ---------------------------------------------------------------- the look-ahead of DecodeMetaSR *)
+(* the header a decoded box remembers, and the eight bytes it was read from *)
+Definition box_hdr (t : mbox) : hdr :=
+  match t with MLeaf h _ _ => h | MCont h _ => h | MUnknown h _ => h | MPre h _ _ _ => h end.
+Definition hdr8 (h : hdr) : list N := (if h_len h =? 8 then be_enc 4 (h_size h) else be_enc 4 1) ++ h_name h.
+
+Lemma box_hdr_norm t : box_hdr (norm_box t) = box_hdr t.
+Proof. destruct t; reflexivity. Qed.
+
+Lemma firstn_exact {A} (x r : list A) n : length x = n -> firstn n (x ++ r) = x.
+Proof. intros <-. rewrite firstn_app, Nat.sub_diag, firstn_all. cbn [firstn]. apply app_nil_r. Qed.
+
+Lemma decode_box_hdr f bs t r : decode_box f bs = Ok (t, r) -> exists h r0, dec_hdr bs = Ok (h, r0) /\ box_hdr t = h.
+Proof.
+  destruct f as [|f]; cbn [decode_box]; [discriminate|]. intros H.
+  destruct (dec_hdr bs) as [[h r0]| | |]; try discriminate. exists h, r0. split; [reflexivity|].
+  repeat match type of H with
+         | (if ?c then _ else _) = Ok _ => destruct c
+         | match ?x with _ => _ end = Ok _ => destruct x
+         | Err = Ok _ => discriminate H
+         | Panic = Ok _ => discriminate H
+         | OutOfFuel = Ok _ => discriminate H
+         end; injection H as <- _; reflexivity.
+Qed.
+
+Lemma rcat_ok (a b : res (list N)) e : rcat a b = Ok e -> exists x y, a = Ok x /\ b = Ok y /\ e = x ++ y.
+Proof. destruct a as [x| | |], b as [y| | |]; cbn [rcat]; try discriminate. intros H. injection H as <-. now exists x, y. Qed.
+
+(* the header the encoders write, as a prefix of their output *)
+Definition hdr_of_raw (t : mbox) : list N :=
+  match t with
+  | MLeaf _ l _ => leaf_hdr l
+  | MCont h cs => enc_hdr (h_name h) (8 + sumN (map size_box cs))
+  | MUnknown h _ => if 8 <? h_len h then enc_hdr_large (h_name h) (h_size h) else enc_hdr (h_name h) (h_size h)
+  | MPre _ l _ cs => enc_hdr (leaf_name l) (size_leaf l + sumN (map size_box cs))
+  end.
+Lemma raw_starts keep t enc : raw_box keep t = Ok enc -> exists tl, enc = hdr_of_raw t ++ tl.
+Proof.
+  destruct t as [h l r|h cs|h p|h l r cs]; cbn [hdr_of_raw].
+  - cbn [raw_box]. unfold raw_leaf. destruct (body_leaf l (if keep then r else dflt_rsv l)); try discriminate.
+    intros H. injection H as <-. eexists. reflexivity.
+  - rewrite raw_box_cont. cbv zeta. intros H.
+    assert (H' : rcat (Ok (enc_hdr (h_name h) (8 + sumN (map size_box cs))))
+                   (cat_encs (if bytes_eqb (h_name h) n_moov then moov_order fst (map (genc keep) cs) else map (genc keep) cs)) = Ok enc).
+    { destruct (bytes_eqb (h_name h) n_moof); [|exact H]. destruct (moof_pre cs); try discriminate. exact H. }
+    destruct (rcat_ok _ _ _ H') as (x & y & Hx & _ & ->). injection Hx as <-. eexists. reflexivity.
+  - cbn [raw_box]. intros H. injection H as <-. eexists. reflexivity.
+  - rewrite raw_box_pre. intros H. destruct (rcat_ok _ _ _ H) as (x & y & Hx & _ & ->). injection Hx as <-. eexists. reflexivity.
+Qed.
+
+(* re-encoding an exact decoded box starts with the eight bytes the box was read from (size field or the large-size
+   marker, and the name): what DecodeMetaSR looks at in its first child *)
+Lemma reenc_hdr f bs t rest enc : bytes_ok bs = true -> decode_box f bs = Ok (t, rest) -> exact_box t = true ->
+  raw_box false t = Ok enc -> exists hd tl1 tl2, length hd = 8%nat /\ bs = hd ++ tl1 /\ enc = hd ++ tl2.
+Proof.
+  intros Hok H Hex Henc. destruct (raw_starts _ _ _ Henc) as (tl & ->).
+  destruct f as [|f]; cbn [decode_box] in H; [discriminate|].
+  destruct (dec_hdr bs) as [[h r]| | |] eqn:Eh; try discriminate.
+  destruct (dec_hdr_spec _ _ _ Hok Eh) as (Hokr & Hle & Hshape). destruct (dec_hdr_facts _ _ _ Hok Eh) as (Hnm & _).
+  assert (Hl4 : length (h_name h) = 4%nat) by (unfold lenN in Hnm; lia).
+  assert (Hb4 : forall v, length (be_enc 4 v) = 4%nat) by (intros v; pose proof (lenN_be_enc 4 v) as E; unfold lenN in E; lia).
+  (* the full header xh the encoder writes is the one that was read *)
+  assert (Hgoal : hdr_of_raw t = (if 8 <? h_len h then enc_hdr_large (h_name h) (h_size h) else enc_hdr (h_name h) (h_size h)) ->
+            exists hd tl1 tl2, length hd = 8%nat /\ bs = hd ++ tl1 /\ hdr_of_raw t ++ tl = hd ++ tl2).
+  { intros ->. destruct Hshape as [[Hl ->]|[Hl ->]]; rewrite Hl; cbn [N.ltb N.compare Pos.compare Pos.compare_cont].
+    - exists (enc_hdr (h_name h) (h_size h)), r, tl. unfold enc_hdr. rewrite app_length, Hb4, Hl4. repeat split.
+    - exists (be_enc 4 1 ++ h_name h), (be_enc 8 (h_size h) ++ r), (be_enc 8 (h_size h) ++ tl).
+      unfold enc_hdr_large. rewrite app_length, Hb4, Hl4, <- !app_assoc. repeat split. }
+  apply Hgoal. clear Hgoal.
+  destruct ((lenN r + h_len h <? h_size h) && negb (bytes_eqb (h_name h) n_mdat)); [discriminate|].
+  destruct (lookup (h_name h) leaf_table) as [d|] eqn:El.
+  - destruct (d h r) as [[[l rsv] r']| | |] eqn:Ed; try discriminate. injection H as <- <-.
+    destruct (lookup_in _ _ _ El) as (k & Hin & Hk).
+    pose proof (proj1 (Forall_forall _ _) leaf_table_ok _ Hin) as [_ Hname]. cbn [fst snd] in *.
+    specialize (Hname _ _ _ _ _ Hk Ed).
+    cbn [exact_box] in Hex. apply andb_true_iff in Hex. destruct Hex as [Hh _].
+    cbn [hdr_of_raw]. unfold leaf_hdr. rewrite Hname, <- Hk. destruct (leaf_large l).
+    + apply andb_true_iff in Hh. destruct Hh as [H1 H2]. apply N.eqb_eq in H1, H2. now rewrite H1, H2.
+    + unfold hdr_exact in Hh. apply andb_true_iff in Hh. destruct Hh as [H1 H2]. apply N.eqb_eq in H1, H2. now rewrite H1, H2.
+  - destruct (pre_lookup h r) as [[d lk]|] eqn:Epre0.
+    { pose proof (pre_lookup_some _ _ _ Epre0) as Epre.
+      destruct (d h r) as [[[l rsv] r1]| | |] eqn:Ed; try discriminate.
+      destruct (lookup_in _ _ _ Epre) as (k & Hin & Hk).
+      pose proof (proj1 (Forall_forall _ _) pre_table_ok _ Hin) as [_ Hname]. cbn [fst snd] in *.
+      specialize (Hname _ _ _ _ _ Hk Ed).
+      assert (Hpre : forall cs, exact_box (MPre h l rsv cs) = true ->
+                hdr_of_raw (MPre h l rsv cs) = (if 8 <? h_len h then enc_hdr_large (h_name h) (h_size h) else enc_hdr (h_name h) (h_size h))).
+      { intros cs Hex'. cbn [exact_box] in Hex'. apply andb_true_iff in Hex'. destruct Hex' as [Hex' _].
+        apply andb_true_iff in Hex'. destruct Hex' as [Hh _].
+        unfold hdr_exact in Hh. apply andb_true_iff in Hh. destruct Hh as [H1 H2]. apply N.eqb_eq in H1, H2.
+        cbn [hdr_of_raw]. now rewrite Hname, <- Hk, H1, <- H2. }
+      destruct lk as [off|start].
+      - destruct (h_size h <? off); [discriminate|].
+        destruct (decode_children f (h_size h - off) 0 0 r1) as [[cs r']| | |]; try discriminate.
+        destruct (pre_count_ok l (lenN cs)); [|discriminate]. injection H as <- <-. now apply Hpre.
+      - destruct (decode_entries f (h_size h) start r1) as [[cs r']| | |]; try discriminate. injection H as <- <-. now apply Hpre. }
+    destruct (cont_like h r).
+    + destruct (decode_children f (h_size h - 8) 0 0 r) as [[cs r']| | |] eqn:Ec; try discriminate.
+      destruct (bytes_eqb (h_name h) n_edts && negb (edts_ok cs)); [discriminate|]. injection H as <- <-.
+      cbn [exact_box] in Hex. apply andb_true_iff in Hex. destruct Hex as [Hex _].
+      apply andb_true_iff in Hex. destruct Hex as [Hex _]. apply andb_true_iff in Hex. destruct Hex as [Hlen Hcs].
+      apply N.eqb_eq in Hlen.
+      destruct (proj1 (proj2 (tree_both f)) _ _ _ _ _ _ Hokr Ec Hcs) as (_ & _ & _ & _ & Hsum).
+      cbn [hdr_of_raw]. rewrite Hlen. cbn [N.ltb N.compare Pos.compare Pos.compare_cont]. f_equal. lia.
+    + destruct (rdB (payload_len h) r) as [[p r']| | |]; try discriminate. injection H as <- <-. reflexivity.
+Qed.
+
+Lemma children_reenc_hd f target bs cs r encc r2 : bytes_ok bs = true -> decode_children f target 0 0 bs = Ok (cs, r) ->
+  forallb exact_box cs = true -> cat_encs (map (genc false) cs) = Ok encc -> 0 < target ->
+  firstn 8 (encc ++ r2) = firstn 8 bs.
+Proof.
+  intros Hok H Hex Henc Ht. destruct f as [|f]; cbn [decode_children] in H; [discriminate|].
+  replace (target <? 0) with false in H by (symmetry; apply N.ltb_ge; lia).
+  replace (0 =? target) with false in H by (symmetry; apply N.eqb_neq; lia).
+  destruct (decode_box f bs) as [[c r1]| | |] eqn:Eb; try discriminate.
+  destruct (negb (0 + size_box c =? 0 + (lenN bs - lenN r1))); [discriminate|].
+  destruct (decode_children f target (0 + size_box c) (0 + (lenN bs - lenN r1)) r1) as [[cs' r3]| | |]; try discriminate.
+  injection H as <- _. cbn [map cat_encs fold_right genc snd forallb] in Henc, Hex.
+  apply andb_true_iff in Hex. destruct Hex as [Hc _].
+  destruct (rcat_ok _ _ _ Henc) as (e1 & e2 & He1 & _ & ->).
+  destruct (reenc_hdr _ _ _ _ _ Hok Eb Hc He1) as (hd & tl1 & tl2 & Hl & -> & ->).
+  rewrite <- !app_assoc. now rewrite !firstn_exact.
+Qed.
+
+Lemma skipn_exact {A} (x r : list A) n : length x = n -> skipn n (x ++ r) = r.
+Proof. intros <-. rewrite skipn_app, skipn_all, Nat.sub_diag. reflexivity. Qed.
+Lemma f4s4_of_f8 (x y : list N) : firstn 8 x = firstn 8 y -> firstn 4 (skipn 4 x) = firstn 4 (skipn 4 y).
+Proof. intros E. rewrite !(firstn_skipn_comm 4 4). cbn [Nat.add]. now rewrite E. Qed.
+Lemma f4_of_f8 (x y : list N) : firstn 8 x = firstn 8 y -> firstn 4 x = firstn 4 y.
+Proof.
+  intros E. assert (H : forall z : list N, firstn 4 z = firstn 4 (firstn 8 z)) by (intros z; rewrite firstn_firstn; reflexivity).
+  now rewrite (H x), (H y), E.
+Qed.
+
+Lemma meta_qt_ext h r1 r2 :
+  (bytes_eqb (h_name h) n_meta = true -> 8 <= payload_len h -> firstn 4 (skipn 4 r1) = firstn 4 (skipn 4 r2)) ->
+  meta_qt h r1 = meta_qt h r2.
+Proof.
+  intros H. unfold meta_qt. destruct (bytes_eqb (h_name h) n_meta); [|reflexivity].
+  destruct (8 <=? payload_len h) eqn:E; [|reflexivity]. apply N.leb_le in E. now rewrite (H eq_refl E).
+Qed.
+Lemma pre_lookup_ext h r1 r2 : meta_qt h r1 = meta_qt h r2 -> pre_lookup h r1 = pre_lookup h r2.
+Proof. unfold pre_lookup. now intros ->. Qed.
+Lemma cont_like_ext h r1 r2 : meta_qt h r1 = meta_qt h r2 -> cont_like h r1 = cont_like h r2.
+Proof. unfold cont_like. now intros ->. Qed.
+Lemma lookup_meta_pre : lookup n_meta pre_table = Some (dec_fullonly, PStrict 12).
+Proof. reflexivity. Qed.
+Lemma bytes_ok_app_l (x y : list N) : bytes_ok (x ++ y) = true -> bytes_ok x = true.
+Proof. unfold bytes_ok. rewrite forallb_app. intros H. apply andb_true_iff in H. tauto. Qed.
+
 Lemma lookup_mdat_leaf : lookup n_mdat leaf_table <> None.
 Proof. vm_compute. discriminate. Qed.
 
@@ -187,8 +337,9 @@ Proof.
     replace ((lenN (b' ++ r2) + h_len h <? h_size h) && negb (bytes_eqb (h_name h) n_mdat)) with false
       by (symmetry; apply andb_false_iff; left; apply N.ltb_ge; rewrite lenN_app; lia).
     rewrite El, Hrep. reflexivity.
-  - destruct (lookup (h_name h) pre_table) as [[d lk]|] eqn:Epre.
+  - destruct (pre_lookup h r) as [[d lk]|] eqn:Epre0.
     { (* prefixed box *)
+      pose proof (pre_lookup_some _ _ _ Epre0) as Epre.
       destruct (d h r) as [[[l rsv] r1]| | |] eqn:Ed; try discriminate.
       destruct (lookup_in _ _ _ Epre) as (k & Hin & Hk).
       pose proof (proj1 (Forall_forall _ _) pre_table_ok _ Hin) as [Hloss Hname].
@@ -240,7 +391,20 @@ Proof.
         replace ((lenN (b' ++ encc ++ r2) + h_len h <? h_size h) && negb (bytes_eqb (h_name h) n_mdat)) with false
           by (symmetry; apply andb_false_iff; left; apply N.ltb_ge; rewrite !lenN_app; lia).
         assert (Hlm : lenN (map norm_box cs) = lenN cs) by (unfold lenN; now rewrite map_length).
-        rewrite El, Epre, Hrep, Eoff, Hrepc, Hlm, Ecnt. reflexivity.
+        assert (Hq : pre_lookup h (b' ++ encc ++ r2) = Some (d, PStrict off)).
+        { rewrite <- Epre0. apply pre_lookup_ext, meta_qt_ext. intros Hm Hpl. apply bytes_eqb_eq in Hm.
+          pose proof Epre as Epre'. rewrite Hm, lookup_meta_pre in Epre'. injection Epre' as <- <-.
+          (* ISO meta: four bytes of version and flags, then the first child, in the input and in the re-encoding *)
+          clear Hrep Hloss Hst Hgoal. unfold dec_fullonly in Ed. run Ed. inj_pret Ed.
+          cbn [size_leaf] in Hsize. assert (Hb4 : length b' = 4%nat) by (unfold lenN in Hsize; lia).
+          rewrite (skipn_exact b' _ 4 Hb4).
+          match goal with |- context [skipn 4 (be_enc 4 ?v ++ _)] =>
+            rewrite (skipn_exact (be_enc 4 v) _ 4) by (pose proof (lenN_be_enc 4 v) as E; unfold lenN in E; lia) end.
+          apply f4_of_f8.
+          match goal with Hk : bytes_ok ?y = true, Hc : decode_children f _ 0 0 ?y = Ok _ |- _ =>
+            apply (children_reenc_hd _ _ _ _ _ _ r2 Hk Hc Hcs Henc) end.
+          unfold payload_len in Hpl. lia. }
+        rewrite El, Hq, Hrep, Eoff, Hrepc, Hlm, Ecnt. reflexivity.
       - destruct (decode_entries f (h_size h) start r1) as [[cs r']| | |] eqn:Ec; try discriminate.
         injection H as <- <-.
         apply Hgoal; [assumption|]. intros Hcs Hokr1.
@@ -255,8 +419,11 @@ Proof.
         cbn [decode_box]. repeat rewrite <- app_assoc. rewrite <- Hxh, Hreph.
         replace ((lenN (b' ++ encc ++ r2) + h_len h <? h_size h) && negb (bytes_eqb (h_name h) n_mdat)) with false
           by (symmetry; apply andb_false_iff; left; apply N.ltb_ge; rewrite !lenN_app; lia).
-        rewrite El, Epre, Hrep, Hrepc. reflexivity. }
-    destruct (is_cont (h_name h)) eqn:Econt.
+        assert (Hq : pre_lookup h (b' ++ encc ++ r2) = Some (d, PEntry start)).
+        { rewrite <- Epre0. apply pre_lookup_ext, meta_qt_ext. intros Hm _. apply bytes_eqb_eq in Hm.
+          rewrite Hm, lookup_meta_pre in Epre. discriminate Epre. }
+        rewrite El, Hq, Hrep, Hrepc. reflexivity. }
+    destruct (cont_like h r) eqn:Econt.
     + (* container *)
       destruct (decode_children f (h_size h - 8) 0 0 r) as [[cs r']| | |] eqn:Ec; try discriminate.
       destruct (bytes_eqb (h_name h) n_edts && negb (edts_ok cs)) eqn:Eedts; [discriminate|].
@@ -287,7 +454,10 @@ Proof.
       intros r2. cbn [decode_box norm_box]. rewrite <- app_assoc, <- Hxh, Hreph.
       replace ((lenN (encc ++ r2) + h_len h <? h_size h) && negb (bytes_eqb (h_name h) n_mdat)) with false
         by (symmetry; apply andb_false_iff; left; apply N.ltb_ge; rewrite !lenN_app; lia).
-      rewrite El, Epre, Econt, Hrepc, edts_norm, Eedts. reflexivity.
+      assert (Hq : meta_qt h (encc ++ r2) = meta_qt h r).
+      { apply meta_qt_ext. intros _ Hpl. apply f4s4_of_f8. apply (children_reenc_hd _ _ _ _ _ _ r2 Hokr Ec Hcs Henc).
+        unfold payload_len in Hpl. lia. }
+      rewrite El, (pre_lookup_ext _ _ _ Hq), Epre0, (cont_like_ext _ _ _ Hq), Econt, Hrepc, edts_norm, Eedts. reflexivity.
     + (* unknown *)
       destruct (rdB (payload_len h) r) as [[p r']| | |] eqn:Ep; try discriminate.
       injection H as <- <-.
@@ -304,7 +474,11 @@ Proof.
       intros r2. cbn [decode_box]. rewrite <- app_assoc, Hreph.
       replace ((lenN (p ++ r2) + h_len h <? h_size h) && negb (bytes_eqb (h_name h) n_mdat)) with false
         by (symmetry; apply andb_false_iff; left; apply N.ltb_ge; rewrite !lenN_app; lia).
-      rewrite El, Epre, Econt. unfold payload_len. rewrite rdB_lit by exact Hlp. reflexivity.
+      assert (Hq : meta_qt h (p ++ r2) = meta_qt h r).
+      { apply meta_qt_ext. intros _ Hpl. rewrite Hr. apply f4s4_of_f8. unfold payload_len in Hpl.
+        assert (Hp8 : (8 <= length p)%nat) by (unfold lenN in Hlp; lia).
+        rewrite !firstn_app. replace (8 - length p)%nat with 0%nat by lia. reflexivity. }
+      rewrite El, (pre_lookup_ext _ _ _ Hq), Epre0, (cont_like_ext _ _ _ Hq), Econt. unfold payload_len. rewrite rdB_lit by exact Hlp. reflexivity.
 Qed.
 
 Lemma stable_all f : sbox f /\ schildren f /\ sentries f.
@@ -429,8 +603,9 @@ Proof.
       unfold hdr_exact in Hh. apply andb_true_iff in Hh. destruct Hh as [H1 H2]. apply N.eqb_eq in H1, H2.
       apply N.ltb_lt. rewrite <- H2. now apply Hcompact.
     + apply caps_leaf. intros b Hb. rewrite Henc in Hb. injection Hb as <-. lia.
-  - destruct (lookup (h_name h) pre_table) as [[d lk]|] eqn:Epre.
-    { destruct (d h r) as [[[l rsv] r1]| | |] eqn:Ed; try discriminate.
+  - destruct (pre_lookup h r) as [[d lk]|] eqn:Epre0.
+    { pose proof (pre_lookup_some _ _ _ Epre0) as Epre.
+      destruct (d h r) as [[[l rsv] r1]| | |] eqn:Ed; try discriminate.
       assert (Hgoal : forall cs, exact_box (MPre h l rsv cs) = true ->
                 (forallb exact_box cs = true -> forallb enc_fits cs = true /\ forallb caps_ok cs = true) ->
                 enc_fits (MPre h l rsv cs) = true /\ caps_ok (MPre h l rsv cs) = true).
@@ -459,7 +634,7 @@ Proof.
         apply Hgoal; [assumption|]. intros Hcs. exact (IHc _ _ _ _ _ _ Hokr1 Ec Hcs).
       - destruct (decode_entries f (h_size h) start r1) as [[cs r'']| | |] eqn:Ec; try discriminate. injection H as <- <-.
         apply Hgoal; [assumption|]. intros Hcs. exact (IHe _ _ _ _ _ Hokr1 Ec Hcs). }
-    destruct (is_cont (h_name h)).
+    destruct (cont_like h r).
     + destruct (decode_children f (h_size h - 8) 0 0 r) as [[cs r'']| | |] eqn:Ec; try discriminate.
       destruct (bytes_eqb (h_name h) n_edts && negb (edts_ok cs)); [discriminate|]. injection H as <- <-.
       cbn [exact_box] in Hex. apply andb_true_iff in Hex. destruct Hex as [Hex _].
